@@ -89,6 +89,9 @@ func runOne(kind string, preload bool, limit, passes int, es []a08.Entry, chosen
 
 func runCase(c string) string {
 	f := strings.Split(c, " ")
+	if f[0] == "cpair" {
+		return runContentCase(f)
+	}
 	if (len(f) != 7 && len(f) != 8) || f[0] != "pair" {
 		return "unknown-case"
 	}
@@ -211,7 +214,7 @@ func gen(r *vh.Rand, tier string) []string {
 		}
 		add(kind, r.PickInt([]int{0, 0, 1, 2, 3, 5, 9, 17}), r.PickInt([]int{0, 0, 1, 2, 3, 4}), tags, ch)
 	}
-	return out
+	return append(out, genContent(r, tier)...)
 }
 
 // cells run in worker subprocesses like hC08 (a spinning provider must not disturb later cells)
